@@ -802,6 +802,11 @@ int main()
       // (queueInLoop before loop() is entered: !looping_) is part of the readiness observed below
       bool preQuit = (k == "LOOP" && g_specialOpen > 0 && (g_dead[0] != g_dead[1]));
       if (k == "LOOP" && g_specialOpen > 0 && !preQuit) { invalid("the loop's own descriptors need a one-sided case (only=E|only=P)"); bad = true; continue; }
+      if (preQuit && !g_dead[1] && g_pp->pollfds_.empty())
+      {
+        // PollPoller::poll must not be entered with an empty pollfds_ (see POLL below): nothing to iterate with
+        invalid("LOOP on the poll back-end with no channel registered while the loop's own descriptors are in play"); bad = true; continue;
+      }
       if (preQuit) g_loop->queueInLoop(std::bind(&EventLoop::quit, g_loop));
       // observed readiness of every open descriptor (independent raw poll(2), all conditions asked)
       std::vector<struct pollfd> raw;
